@@ -33,6 +33,9 @@ UNITS = [
     U("C16.keys_msg_b2", ["C16", "C07"], KM, "h_wl_keys_msg", replace=KM_REPL, assumed=["secp256k1_gej_add_ge_var", "secp256k1_whitelist_tweak_pubkey"],
       defs=["KM_MAX=2", "KM_VALID_ALL"], functions=KM_FUNCS, timeout=900, min_obl=1502, unwind=34, unwindset=["secp256k1_whitelist_compute_keys_and_message.0:4"], bounded="n_keys<=2",
       note="unwound list of at most 2 pairs with ALL key objects valid: additionally no callback"),
+    U("C16.keys_wiring_b2", ["C16", "C07"], KM, "h_wl_keys_msg", replace=KM_REPL, assumed=["secp256k1_gej_add_ge_var", "secp256k1_whitelist_tweak_pubkey"],
+      defs=["KM_MAX=2", "KM_WIRING"], functions=KM_FUNCS, timeout=900, min_obl=1502, unwind=34, unwindset=["secp256k1_whitelist_compute_keys_and_message.0:4"], bounded="n_keys<=2",
+      note="unwound list of at most 2 pairs with ALL key objects valid: ring key i = online_i + tweak(offline_i + W): operands of the two oracle additions and of the tweak by value, destination keys[i]"),
     U("C16.sign_key_gate", ["C16"], "harness/C16/tweaked_privkey.c", "h_wl_tweaked_privkey",
       replace=["secp256k1_ecmult_gen", "secp256k1_whitelist_hash_pubkey", "secp256k1_scalar_mul"],
       assumed=["secp256k1_ecmult_gen", "secp256k1_whitelist_hash_pubkey", "secp256k1_scalar_mul"],
